@@ -168,7 +168,7 @@ pub fn gen_case(rng: &mut Rng, family: &str, profile: &str, size: usize) -> Stri
             let n = *rng.pick(&[600i64, 1001, 1025, 1500, 2049, 2600]) + rng.range(0, 40);
             let directed = rng.chance(50);
             let c = rng.range(1, 8);
-            format!("gnpdet {} {} {} {} {}", n, c, n, directed as u8, crate::comm::special_seed(rng, 100000))
+            format!("gnpdet {} {} {} {} {}", n, c, n, directed as u8, crate::comm::special_seed(rng, 100000) as i64)
         }
         "gnp" => {
             let n = if profile == "large" { rng.range(41, 300) } else { rng.range(0, size as i64) };
